@@ -223,7 +223,8 @@ def index_models(tier, cov, which):
     if tier == "thorough":
         cfgs += [("q1", "2 goroutines x 2 requests, 2 keys, 2 sizes"),
                  ("2x2c", "2 goroutines x 2 requests, 2 keys, 2 sizes, corrupt file initially indexed"),
-                 ("q2", "3 goroutines x 1 request, 2 keys, 2 sizes, corrupt file initially indexed")]
+                 ("q2", "3 goroutines x 1 request, 2 keys, 2 sizes, corrupt file initially indexed"),
+                 ("q3b", "2 goroutines x 2 requests, 1 key, 1 size, corrupt file initially indexed, proxy backend (fetch = reserve / ask + create / copy / commit / clean-up; uploads handed to the backend)")]
     for c, desc in cfgs:
         r = model_check(f"Cache/{c}", "MC_Cache.tla", f"MC_Cache_{c}.cfg", workers=16,
                         timeout=3000 if tier == "thorough" else 600)
@@ -233,41 +234,43 @@ def index_models(tier, cov, which):
 def replay_half(v, cov, tier):
     """Spec -> code: behaviours of CacheReplay.tla (Cache.tla with a history variable) generated by TLC's
     simulation mode are stepped through the real disk cache, one goroutine per model goroutine held at
-    the verif gates; directory, index order, counters and program counters are compared after every step."""
-    n = 300 if tier == "quick" else 5000
-    r = run_tlc("CacheReplay.tla", "CacheReplay.cfg", workers=1, timeout=3000, simulate=f"num={n}",
-                extra=["-depth", "100", "-seed", str(seed())], keep_prints=True)
-    if not r.ok and not r.prints:
-        raise Machinery(f"simulation of CacheReplay.tla failed: {r.invariant or r.error}\n{r.output[-2000:]}")
-    if r.invariant:
-        raise Machinery(f"CacheReplay.tla violates {r.invariant} in simulation\n{r.output[-3000:]}")
-    beh = os.path.join(scratch(), "behaviours.ndjson")
-    k = 0
-    with open(beh, "w") as f:
-        for l in r.prints:
-            l = l.strip()
-            if l.startswith('<<"CASE", ') and l.endswith('>>'):
-                f.write(json.loads(l[len('<<"CASE", '):-2]) + "\n")
-                k += 1
-    if k == 0:
-        raise Machinery("CacheReplay.tla printed no behaviour")
-    res = run_vh(["sched", "-behaviours", beh, "-seed", str(seed())], timeout=7200)
-    keep = beh
-    if res.get("violations"):
-        os.makedirs(os.path.join(OUT, "replays"), exist_ok=True)
-        keep = os.path.join(OUT, "replays", f"behaviours-{v.prop}-seed{seed()}.ndjson")
-        shutil.copy(beh, keep)
-    collect_driver(v, res, {"driver_args": ["sched", "-behaviours", keep, "-seed", str(seed())], "kind": "driver"})
-    cov["drivers"].append({"driver": "sched (replay of TLC behaviours through the gates)", "behaviours": res["cases"], "nontrivial": res["nontrivial"],
-                           "rule": res["rule"], "extra": res.get("extra"), "drive_s": round(res["_wall_s"], 1), "simulate_s": round(r.wall_s, 1)})
-    cov["evaluations"] += res["cases"]
-    cov["distinct_nontrivial"] += res["nontrivial"]
-    for smp in res.get("samples", [])[:1]:
-        cov["samples"].append({"driver": "sched", "behaviour": smp})
-    if res["cases"] == 0:
-        raise Machinery("sched replayed nothing")
-    log(f"[conf] sched: {res['cases']} behaviours of CacheReplay.tla replayed ({res['nontrivial']} with overlapping requests, {res.get('extra')}), "
-        f"{len(res.get('violations', []))} violations, {res['_wall_s']:.1f}s")
+    the verif gates; directory, index order, counters and program counters are compared after every step.
+    Two configurations: without and with a proxy backend."""
+    for cfg, label, n in [("CacheReplay.cfg", "sched", 200 if tier == "quick" else 4000),
+                          ("CacheReplay_b.cfg", "sched+backend", 200 if tier == "quick" else 4000)]:
+        r = run_tlc("CacheReplay.tla", cfg, workers=1, timeout=3000, simulate=f"num={n}",
+                    extra=["-depth", "140", "-seed", str(seed())], keep_prints=True)
+        if not r.ok and not r.prints:
+            raise Machinery(f"simulation of CacheReplay.tla/{cfg} failed: {r.invariant or r.error}\n{r.output[-2000:]}")
+        if r.invariant:
+            raise Machinery(f"CacheReplay.tla/{cfg} violates {r.invariant} in simulation\n{r.output[-3000:]}")
+        beh = os.path.join(scratch(), f"behaviours-{label}.ndjson")
+        k = 0
+        with open(beh, "w") as f:
+            for l in r.prints:
+                l = l.strip()
+                if l.startswith('<<"CASE", ') and l.endswith('>>'):
+                    f.write(json.loads(l[len('<<"CASE", '):-2]) + "\n")
+                    k += 1
+        if k == 0:
+            raise Machinery(f"CacheReplay.tla/{cfg} printed no behaviour")
+        res = run_vh(["sched", "-behaviours", beh, "-seed", str(seed())], timeout=7200)
+        keep = beh
+        if res.get("violations"):
+            os.makedirs(os.path.join(OUT, "replays"), exist_ok=True)
+            keep = os.path.join(OUT, "replays", f"behaviours-{v.prop}-{label}-seed{seed()}.ndjson")
+            shutil.copy(beh, keep)
+        collect_driver(v, res, {"driver_args": ["sched", "-behaviours", keep, "-seed", str(seed())], "kind": "driver"})
+        cov["drivers"].append({"driver": f"{label} (replay of TLC behaviours through the gates)", "behaviours": res["cases"], "nontrivial": res["nontrivial"],
+                               "rule": res["rule"], "extra": res.get("extra"), "drive_s": round(res["_wall_s"], 1), "simulate_s": round(r.wall_s, 1)})
+        cov["evaluations"] += res["cases"]
+        cov["distinct_nontrivial"] += res["nontrivial"]
+        for smp in res.get("samples", [])[:1]:
+            cov["samples"].append({"driver": label, "behaviour": smp})
+        if res["cases"] == 0:
+            raise Machinery("sched replayed nothing")
+        log(f"[conf] {label}: {res['cases']} behaviours of CacheReplay.tla replayed ({res['nontrivial']} with overlapping requests, {res.get('extra')}), "
+            f"{len(res.get('violations', []))} violations, {res['_wall_s']:.1f}s")
 
 
 def index_family(prop, tier, plans):
